@@ -32,6 +32,10 @@ def cases(tier, seed):
             for h in hof:
                 for f in (fns1 if tier != 'quick' else fns1[:6]):
                     add(h % f, d, ('ex-hof',))
+    for mk in ['$map([1,2,3], function($v){$v})', '$filter([1,2,3,9], function($v){$v < 5})', '[1,2,3]', '$append([1,2],[3])', '$reverse([3,2,1])', '$sort([3,1,2])', '$distinct([1,2,3,3])', '$map([1,2,3,4,5], function($v){$v})']:
+        add('($a := %s; $b := $append($a, "x"); $c := $append($a, "y"); {"a": $a, "b": $b, "c": $c})' % mk, None, ('alias',))
+        add('($a := %s; $map([10,20,30], function($x){$append($a, $x)}))' % mk, None, ('alias',))
+        add('($a := %s; $r := $reverse($a); $s := $sort($a); $z := $append($a, $a); [$a, $r, $s, $z])' % mk, None, ('alias',))
     # numeric arrays for aggregates and reduce
     for i in range(500 if tier == 'quick' else 20000):
         m = rng.randint(0, 8)
